@@ -136,11 +136,15 @@ func evalStmtBlock(vm *r.VM, stmtBlock *syntax.StmtBlock) (r.Element, error) {
 	for _, stmtX := range stmtBlock.Children {
 		switch v := stmtX.(type) {
 		case *syntax.ClassDeclareStmt:
+			// a declaration is a statement being executed, too: an error raised while
+			// declaring (a failing property initialiser, a duplicate name) points at its line
+			vm.SetCurrentLine(v.GetCurrentLine())
 			// declare class
 			if err := evalClassDeclareStmt(vm, v); err != nil {
 				return nil, err
 			}
 		case *syntax.FunctionDeclareStmt:
+			vm.SetCurrentLine(v.GetCurrentLine())
 			if v.DeclareType == syntax.DeclareTypeConstructor {
 				if err := evalConstructorDeclareStmt(vm, v); err != nil {
 					return nil, err
